@@ -572,6 +572,7 @@ class Interp:
         self.leaf_calls = {}   # def -> list of (arg values, st)
         self.loop_limit = 64
         self.genv_stack = [None]
+        self.watch_cells = set()
 
     # ---- cells ------------------------------------------------------------------------------
     def new_cell(self, st, v=UNINIT):
@@ -704,11 +705,16 @@ class Interp:
         return cell, path
 
     def write_loc(self, st, cell, path, val):
+        if cell in self.watch_cells:
+            st.event("store", cell, tuple(p if p[0] != "idx" else ("idx",) for p in path))
         st.store[cell] = self.update(st, st.store[cell], path, val)
 
     def write_place(self, st, frame, place, val):
         if not place["p"]:
-            st.store[frame[place["l"]]] = val
+            c0 = frame[place["l"]]
+            if c0 in self.watch_cells:
+                st.event("store", c0, ())
+            st.store[c0] = val
             return
         cell, path = self.place_loc(st, frame, place)
         self.write_loc(st, cell, path, val)
